@@ -232,6 +232,45 @@ func ruleErrLast(c *Ctx) []Obligation {
 			}
 		}
 	}
+	// a pass that can remove entries (deviate not-supported deletes the target subtree) must not run before the
+	// errors recorded so far were collected: the node that carries them may be the one removed
+	if apply := c.Fn("yang.(*Entry).ApplyDeviate"); apply != nil {
+		for _, d := range c.callsToDeep(proc, apply) {
+			site := d.(ssa.Instruction)
+			if site.Parent() != proc {
+				if h := c.helpers[site.Parent()]; h != nil && h.caller == proc {
+					site = h.site.(ssa.Instruction)
+				} else {
+					continue
+				}
+			}
+			for _, fld := range []*types.Var{fMods, fSub} {
+				con := fmt.Sprintf("Process: the errors recorded before the deviation pass are swept from all of Modules.%s before it", fld.Name())
+				var best *sweep
+				for i := range sweeps {
+					sw := &sweeps[i]
+					if sw.field != fld || !reaches(sw.call, site) || reaches(site, sw.call) {
+						continue
+					}
+					okAll := true
+					for _, rc := range recCalls {
+						earlier := reaches(rc, site) && !reaches(site, rc)
+						if earlier && !reaches(rc, sw.call) {
+							okAll = false
+						}
+					}
+					if okAll {
+						best = sw
+					}
+				}
+				if best != nil {
+					obs = append(obs, ok(R, con, c.InstrPos(best.call), "a GetErrors sweep over the whole map lies between the last earlier recorder and the deviation pass"))
+				} else {
+					obs = append(obs, bad(R, con, c.InstrPos(site), "errors recorded while augments are merged sit on entries of the target tree and are collected only after the deviations: a deviate not-supported that removes the node carrying them makes Process return a clean result"))
+				}
+			}
+		}
+	}
 	// the sweep must not filter: the GetErrors result is appended unconditionally inside the loop
 	for _, s := range sweeps {
 		con := fmt.Sprintf("Process: sweep over Modules.%s #%d is unconditional", s.field.Name(), s.head.Index)
